@@ -397,7 +397,7 @@ fn main() {
     let args: Vec<String> = std::env::args().collect();
     runner::install_quiet_panic_hook();
     let code = match args.get(1).map(|s| s.as_str()) {
-        Some("selftest") => selftest::run(300),
+        Some("selftest") => selftest::run(600),
         Some("replay") => replay(&args[2]),
         Some("check") => {
             let prop = args[2].as_str();
